@@ -34,7 +34,12 @@ def log(*a):
 
 
 def scratch(prefix="wv-"):
-    base = "/dev/shm" if os.path.isdir("/dev/shm") else tempfile.gettempdir()
+    """Scratch directory, removed by the caller.  The quick tier works in tmpfs; the thorough tier
+    writes gigabytes of TLC output and state queues, which in tmpfs would count against RAM."""
+    base = os.environ.get("VERIF_SCRATCH")
+    if not base:
+        thorough = "thorough" in sys.argv[2:] or os.environ.get("VERIF_TIER") == "thorough"
+        base = "/dev/shm" if os.path.isdir("/dev/shm") and not thorough else tempfile.gettempdir()
     return tempfile.mkdtemp(prefix=prefix, dir=base)
 
 
@@ -77,7 +82,7 @@ _STATES_RE = re.compile(r"(\d+) states generated, (\d+) distinct states found")
 
 
 def run_tlc(workdir, module, cfg_text, tag, workers=None, timeout=3000, env=None, stdout_path=None,
-            simulate=None, extra=None):
+            simulate=None, extra=None, heap="5g"):
     """Run TLC on spec/<module>.tla with the given config text in a scratch copy of spec/.
     Returns dict(rc, generated, distinct, out(str tail), violated(str|None), path)."""
     sdir = os.path.join(workdir, "spec-" + tag)
@@ -86,7 +91,9 @@ def run_tlc(workdir, module, cfg_text, tag, workers=None, timeout=3000, env=None
     cfgp = os.path.join(sdir, tag + ".cfg")
     open(cfgp, "w").write(cfg_text)
     outp = stdout_path or os.path.join(workdir, tag + ".tlc.out")
-    cmd = ["java", "-Xss512m", "-XX:+UseParallelGC", "-cp", TLA_CP, "tlc2.TLC",
+    # explicit heap and off-heap bounds: several TLC instances run side by side and the JVM's
+    # default (a quarter of RAM each, twice with the off-heap fingerprint set) invites the OOM killer
+    cmd = ["java", "-Xss512m", "-Xmx" + heap, "-XX:MaxDirectMemorySize=" + heap, "-XX:+UseParallelGC", "-cp", TLA_CP, "tlc2.TLC",
            "-workers", str(workers or NCPU), "-noGenerateSpecTE", "-metadir", os.path.join(sdir, "meta-" + tag),
            "-config", cfgp]
     if simulate:
@@ -138,7 +145,7 @@ def require_clean_mc(res, what):
 
 def validate_traces(workdir, module, cfg_text, trace_file, tag):
     """code -> spec: returns (accepted_lines, total_lines, first_rejected_line or None)."""
-    res = run_tlc(workdir, module, cfg_text, tag, workers=1, env={"TRACE_FILE": trace_file}, timeout=3000)
+    res = run_tlc(workdir, module, cfg_text, tag, workers=1, env={"TRACE_FILE": trace_file}, timeout=3000, heap="3g")
     if res["depth"] is None:
         tail = subprocess.run(["tail", "-n", "30", res["path"]], stdout=subprocess.PIPE, text=True).stdout
         raise Broken("trace validation did not finish (%s):\n%s" % (tag, tail))
